@@ -738,7 +738,7 @@ def c09(tier):
 
 def c12_tier_b_run(seed, prop, i, fault_free):
     """Real parallel marking / evacuation with 1, 2, 4, 8 workers over generated object graphs."""
-    r = hg_run(seed, prop, i, fault_free, collectors=("swiper",), profile=tb.stream(seed, prop, i, "profile").choice(["links", "arrays", "deep", "interior", "mixed"]), max_ops=120)
+    r = hg_run(seed, prop, i, fault_free, collectors=("swiper",), profile=tb.stream(seed, prop, i, "profile").choice(["links", "arrays", "deep", "interior", "mixed", "wide", "wide", "wide"]), max_ops=120)
     cfg = tb.stream(seed, prop, i, "workers")
     workers = cfg.choice([1, 2, 2, 4, 8, 8])
     flags = [f for f in r["dora_flags"].split() if not f.startswith("--gc-worker")] + ["--gc-worker=%d" % workers]
